@@ -27,6 +27,7 @@ type frame struct {
 	parent  *frame
 	cur     *ssa.BasicBlock
 	depth   int
+	rfAt    ssa.Instruction // range-over-func call whose invariants are being evaluated (variable lookup stops before it)
 }
 
 type retInfo struct {
@@ -52,6 +53,8 @@ type loopInfo struct {
 	decr0 []string
 	hdrEnv *env
 	freshNames map[string]bool
+	// range-over-func pseudo loop: the call instruction `it(yield)`; names are looked up before it in its block
+	rfCall ssa.Instruction
 }
 
 // ---------------------------------------------------------------- CFG helpers
@@ -115,10 +118,75 @@ func findLoops(fn *ssa.Function) map[*ssa.BasicBlock]*loopInfo {
 		}
 		return hs[i].Index < hs[j].Index
 	})
-	for i, h := range hs {
-		loops[h].ordinal = i
+	// range-over-func statements (calls `it(yield)` with a synthesized yield closure) are numbered together
+	// with the natural loops, in source order
+	type site struct {
+		pos token.Pos
+		h   *ssa.BasicBlock
+		in  ssa.Instruction
+	}
+	var all []site
+	for _, h := range hs {
+		all = append(all, site{pos: blockPos(h), h: h})
+	}
+	for _, b := range fn.Blocks {
+		for _, in := range b.Instrs {
+			if isRangeFuncCall(in) != nil {
+				all = append(all, site{pos: in.Pos(), in: in})
+			}
+		}
+	}
+	sort.SliceStable(all, func(i, j int) bool { return all[i].pos < all[j].pos })
+	for i, s := range all {
+		if s.h != nil {
+			loops[s.h].ordinal = i
+		}
 	}
 	return loops
+}
+
+// isRangeFuncCall recognises `it(yield)` where yield is the closure go/ssa synthesizes for the body of a
+// range-over-func statement; it returns that closure.
+func isRangeFuncCall(in ssa.Instruction) *ssa.MakeClosure {
+	call, ok := in.(ssa.CallInstruction)
+	if !ok {
+		return nil
+	}
+	cm := call.Common()
+	if cm.IsInvoke() || len(cm.Args) != 1 {
+		return nil
+	}
+	mc, ok := cm.Args[0].(*ssa.MakeClosure)
+	if !ok {
+		return nil
+	}
+	if yf, ok := mc.Fn.(*ssa.Function); ok && yf.Synthetic == "range-over-func yield" {
+		return mc
+	}
+	return nil
+}
+
+// rangeFuncOrdinal: position of a range-over-func call among all loops of fn, in source order.
+func rangeFuncOrdinal(fn *ssa.Function, call ssa.Instruction) int {
+	loops := findLoops(fn)
+	var ps []token.Pos
+	for h := range loops {
+		ps = append(ps, blockPos(h))
+	}
+	n := 0
+	for _, p := range ps {
+		if p < call.Pos() {
+			n++
+		}
+	}
+	for _, b := range fn.Blocks {
+		for _, in := range b.Instrs {
+			if in != call && isRangeFuncCall(in) != nil && in.Pos() < call.Pos() {
+				n++
+			}
+		}
+	}
+	return n
 }
 
 func blockPos(b *ssa.BasicBlock) token.Pos {
